@@ -12,8 +12,10 @@ Definition tracked (p : prov) : list inst := p_sdisp p ++ concat (map sc_disp (p
 Definition inst_bounded (invs : list (nat * nat)) (i : inst) : Prop :=
   match i with IObj rid inv _ _ => inv < get_inv invs rid | IVoid => True end.
 Definition desc_ok (d : desc) : Prop := forall t, r_form (ds_reg d) = FInst t -> disposable t = false.
-Definition Once (c : coll) (rs : rstate) : Prop :=
-  p_descs (rs_p rs) = c /\ NoDup (tracked (rs_p rs)) /\ Forall (inst_bounded (rs_invs rs)) (tracked (rs_p rs)).
+(* [F]: the frame - instances listed elsewhere (other providers) or closed already; they too are distinct from
+   everything this provider lists, and made by counted invocations *)
+Definition Once (c : coll) (F : list inst) (rs : rstate) : Prop :=
+  p_descs (rs_p rs) = c /\ NoDup (tracked (rs_p rs) ++ F) /\ Forall (inst_bounded (rs_invs rs)) (tracked (rs_p rs) ++ F).
 
 (* ------------------------------------------------------------------ what the primitives do to the lists *)
 Lemma map_upd_nth_same {A B} (g : A -> B) (f : A -> A) l h : (forall s, g (f s) = g s) -> map g (upd_nth l h f) = map g l.
@@ -64,15 +66,24 @@ Proof.
   unfold drop_output. destruct life; [rewrite tracked_track_single; destruct (inst_disposable i); [intros [<-|H]; auto|auto]|apply in_tracked_track_scope|apply in_tracked_track_scope].
 Qed.
 
-Lemma nodup_track_scope p h i : NoDup (tracked p) -> ~ In i (tracked p) -> NoDup (tracked (track_scope p h i)).
+(* adding one instance that is nowhere yet *)
+Lemma perm_track_scope_frame p h i F :
+  Permutation (tracked (track_scope p h i) ++ F)
+              (if inst_disposable i && (h <? length (p_scopes p)) then i :: (tracked p ++ F) else tracked p ++ F).
 Proof.
-  intros Hn Hi. apply (Permutation_NoDup (Permutation_sym (tracked_track_scope p h i))).
+  pose proof (tracked_track_scope p h i) as H.
+  destruct (inst_disposable i && (h <? length (p_scopes p))); [apply (Permutation_app_tail F) in H; exact H|apply Permutation_app_tail; exact H].
+Qed.
+Lemma nodup_track_scope p h i F : NoDup (tracked p ++ F) -> ~ In i (tracked p ++ F) -> NoDup (tracked (track_scope p h i) ++ F).
+Proof.
+  intros Hn Hi. apply (Permutation_NoDup (Permutation_sym (perm_track_scope_frame p h i F))).
   destruct (inst_disposable i && (h <? length (p_scopes p))); [constructor; assumption|exact Hn].
 Qed.
-Lemma forall_track_scope (Pr : inst -> Prop) p h i : Forall Pr (tracked p) -> Pr i -> Forall Pr (tracked (track_scope p h i)).
+Lemma forall_track_scope (Pr : inst -> Prop) p h i F : Forall Pr (tracked p ++ F) -> Pr i -> Forall Pr (tracked (track_scope p h i) ++ F).
 Proof.
-  intros Hf Hi. apply Forall_forall. intros j Hj. apply in_tracked_track_scope in Hj. destruct Hj as [->|Hj]; [exact Hi|].
-  rewrite Forall_forall in Hf. apply Hf. exact Hj.
+  intros Hf Hi. apply Forall_forall. intros j Hj. apply in_app_or in Hj. rewrite Forall_forall in Hf. destruct Hj as [Hj|Hj].
+  - apply in_tracked_track_scope in Hj. destruct Hj as [->|Hj]; [exact Hi|apply Hf; apply in_or_app; left; exact Hj].
+  - apply Hf. apply in_or_app. right. exact Hj.
 Qed.
 
 Lemma descs_track_scope p h i : p_descs (track_scope p h i) = p_descs p.
@@ -82,28 +93,28 @@ Proof. unfold share, single_set, cache_set, upd_scope. destruct life; reflexivit
 Lemma tracked_share life p h n i : tracked (share life p h n i) = tracked p.
 Proof. unfold share. destruct life; [apply tracked_single_set|apply tracked_cache_set|reflexivity]. Qed.
 
-Lemma once_store c life rs h n i :
-  Once c rs -> ~ In i (tracked (rs_p rs)) -> inst_bounded (rs_invs rs) i ->
-  Once c (with_p rs (store life (rs_p rs) h n i)).
+Lemma once_store c F life rs h n i :
+  Once c F rs -> ~ In i (tracked (rs_p rs) ++ F) -> inst_bounded (rs_invs rs) i ->
+  Once c F (with_p rs (store life (rs_p rs) h n i)).
 Proof.
   intros (Hd & Hn & Hb) Hi Hbi. unfold Once; cbn [rs_p rs_invs with_p]. rewrite descs_store. split; [exact Hd|].
   unfold store. destruct life.
-  - rewrite tracked_track_single, tracked_single_set. destruct (inst_disposable i); [split; constructor; assumption|split; assumption].
+  - rewrite tracked_track_single, tracked_single_set. destruct (inst_disposable i); [split; cbn [app]; constructor; assumption|split; assumption].
   - split; [apply nodup_track_scope; rewrite tracked_cache_set; assumption|apply forall_track_scope; [rewrite tracked_cache_set; exact Hb|exact Hbi]].
   - split; [apply nodup_track_scope; assumption|apply forall_track_scope; assumption].
 Qed.
-Lemma once_drop c life rs h i :
-  Once c rs -> ~ In i (tracked (rs_p rs)) -> inst_bounded (rs_invs rs) i ->
-  Once c (with_p rs (drop_output (rs_p rs) h life i)).
+Lemma once_drop c F life rs h i :
+  Once c F rs -> ~ In i (tracked (rs_p rs) ++ F) -> inst_bounded (rs_invs rs) i ->
+  Once c F (with_p rs (drop_output (rs_p rs) h life i)).
 Proof.
   intros (Hd & Hn & Hb) Hi Hbi. unfold Once; cbn [rs_p rs_invs with_p]. rewrite descs_drop. split; [exact Hd|].
   unfold drop_output. destruct life.
-  - rewrite tracked_track_single. destruct (inst_disposable i); [split; constructor; assumption|split; assumption].
+  - rewrite tracked_track_single. destruct (inst_disposable i); [split; cbn [app]; constructor; assumption|split; assumption].
   - split; [apply nodup_track_scope; assumption|apply forall_track_scope; assumption].
   - split; [apply nodup_track_scope; assumption|apply forall_track_scope; assumption].
 Qed.
-Lemma once_share_all c life l : forall rs h i, Once c rs ->
-  Once c (with_p rs (fold_left (fun p a => share life p h (ds_ident a) i) l (rs_p rs))).
+Lemma once_share_all c F life l : forall rs h i, Once c F rs ->
+  Once c F (with_p rs (fold_left (fun p a => share life p h (ds_ident a) i) l (rs_p rs))).
 Proof.
   induction l as [|a l IH]; intros rs h i H; cbn [fold_left]; [destruct rs; exact H|].
   apply (IH (with_p rs (share life (rs_p rs) h (ds_ident a) i))).
@@ -113,19 +124,22 @@ Qed.
 (* ------------------------------------------------------------------ the outputs of one invocation *)
 Definition of_invocation (rid inv : nat) (j : inst) (k : nat) : Prop := exists dyn, j = IObj rid inv k dyn.
 
-Lemma once_fan_out c ks : forall rs h d inv,
-  Once c rs -> get_inv (rs_invs rs) (r_id (ds_reg d)) = S inv -> NoDup ks ->
-  (forall j k, In j (tracked (rs_p rs)) -> of_invocation (r_id (ds_reg d)) inv j k -> ~ In k ks) ->
-  Once c (with_p rs (fan_out (rs_p rs) h d inv ks)).
+Lemma once_fan_out c F ks : forall rs h d inv,
+  Once c F rs -> get_inv (rs_invs rs) (r_id (ds_reg d)) = S inv -> NoDup ks ->
+  (forall j k, In j (tracked (rs_p rs) ++ F) -> of_invocation (r_id (ds_reg d)) inv j k -> ~ In k ks) ->
+  Once c F (with_p rs (fan_out (rs_p rs) h d inv ks)).
 Proof.
   induction ks as [|k rest IH]; intros rs h d inv H Hc Hnd Hfresh; cbn [fan_out]; [destruct rs; exact H|].
   inversion Hnd as [|x l Hk Hrest]; subst.
-  assert (Hnew : ~ In (out_inst (ds_reg d) inv k) (tracked (rs_p rs))).
+  assert (Hnew : ~ In (out_inst (ds_reg d) inv k) (tracked (rs_p rs) ++ F)).
   { intros Hin. apply (Hfresh _ k Hin); [eexists; reflexivity|left; reflexivity]. }
   assert (Hb : inst_bounded (rs_invs rs) (out_inst (ds_reg d) inv k)) by (cbn; rewrite Hc; lia).
   assert (Hstep : forall p', (forall j, In j (tracked p') -> j = out_inst (ds_reg d) inv k \/ In j (tracked (rs_p rs))) ->
-            forall j k', In j (tracked p') -> of_invocation (r_id (ds_reg d)) inv j k' -> ~ In k' rest).
-  { intros p' Hsub j k' Hj Hof Hin. destruct (Hsub j Hj) as [->|Hold].
+            forall j k', In j (tracked p' ++ F) -> of_invocation (r_id (ds_reg d)) inv j k' -> ~ In k' rest).
+  { intros p' Hsub j k' Hj Hof Hin. apply in_app_or in Hj.
+    assert (Hcase : j = out_inst (ds_reg d) inv k \/ In j (tracked (rs_p rs) ++ F)).
+    { destruct Hj as [Hj|Hj]; [destruct (Hsub j Hj) as [->|Hold]; [left; reflexivity|right; apply in_or_app; left; exact Hold]|right; apply in_or_app; right; exact Hj]. }
+    destruct Hcase as [->|Hold].
     - destruct Hof as [dyn E]. unfold out_inst in E. inversion E; subst. contradiction.
     - apply (Hfresh j k' Hold Hof). right. exact Hin. }
   destruct (output_desc (p_descs (rs_p rs)) d k).
@@ -143,35 +157,33 @@ Qed.
 Lemma bounded_bump invs rid i : inst_bounded invs i -> inst_bounded (bump_inv invs rid) i.
 Proof. destruct i as [r inv k dyn|]; cbn; [|auto]. intros H. pose proof (inv_le_bump invs rid r). lia. Qed.
 
-Lemma once_ctor c rs rid e :
-  Once c rs -> Once c (log (mkRs (bump_inv (rs_invs rs) rid) (rs_p rs) (rs_ev rs)) e).
+Lemma once_ctor c F rs rid e :
+  Once c F rs -> Once c F (log (mkRs (bump_inv (rs_invs rs) rid) (rs_p rs) (rs_ev rs)) e).
 Proof.
   intros (Hd & Hn & Hb). unfold Once; cbn [rs_p rs_invs log]. repeat split; try assumption.
   apply Forall_forall. intros i Hi. rewrite Forall_forall in Hb. apply bounded_bump. apply Hb. exact Hi.
 Qed.
-Lemma once_log c rs e : Once c rs -> Once c (log rs e).
-Proof. intros H. exact H. Qed.
 
-Lemma none_of_this_invocation rs rid j k :
-  Forall (inst_bounded (rs_invs rs)) (tracked (rs_p rs)) -> In j (tracked (rs_p rs)) ->
-  of_invocation rid (get_inv (rs_invs rs) rid) j k -> False.
+Lemma none_of_this_invocation invs l rid j k :
+  Forall (inst_bounded invs) l -> In j l -> of_invocation rid (get_inv invs rid) j k -> False.
 Proof.
   intros Hb Hj [dyn ->]. rewrite Forall_forall in Hb. specialize (Hb _ Hj). cbn in Hb. lia.
 Qed.
 
 Section Once.
   Variable c : coll.
+  Variable F : list inst.
   Hypothesis c_ok : forall d, In d c -> desc_ok d.
 
   Section WithRec.
     Variable h : nat.
     Variable recd : rstate -> nat -> desc -> rstate * rres.
-    Hypothesis recd_once : forall rs d, In d c -> Once c rs -> Once c (fst (recd rs h d)).
+    Hypothesis recd_once : forall rs d, In d c -> Once c F rs -> Once c F (fst (recd rs h d)).
 
-    Lemma o_req rs t k : Once c rs -> Once c (fst (req recd rs h t k)).
+    Lemma o_req rs t k : Once c F rs -> Once c F (fst (req recd rs h t k)).
     Proof.
       intros H. pose proof H as (Hd & _). unfold req.
-      assert (Hfs : forall k', match find_service (p_descs (rs_p rs)) t k' with Some d => Once c (fst (recd rs h d)) | None => True end).
+      assert (Hfs : forall k', match find_service (p_descs (rs_p rs)) t k' with Some d => Once c F (fst (recd rs h d)) | None => True end).
       { intros k'. destruct (find_service (p_descs (rs_p rs)) t k') as [d|] eqn:Hf; [|exact I].
         apply recd_once; [|exact H]. unfold find_service in Hf. apply find_some in Hf. rewrite <- Hd. exact (proj1 Hf). }
       destruct k.
@@ -181,7 +193,7 @@ Section Once.
       - specialize (Hfs (KVoid n)). destruct (find_service _ t (KVoid n)); [exact Hfs|exact H].
     Qed.
 
-    Lemma o_group_loop ms : forall rs acc, (forall m, In m ms -> In m c) -> Once c rs -> Once c (fst (group_loop recd rs h ms acc)).
+    Lemma o_group_loop ms : forall rs acc, (forall m, In m ms -> In m c) -> Once c F rs -> Once c F (fst (group_loop recd rs h ms acc)).
     Proof.
       induction ms as [|m ms IH]; intros rs acc Hin H; cbn [group_loop]; [exact H|].
       pose proof (recd_once rs m (Hin m (or_introl eq_refl)) H) as H1.
@@ -189,14 +201,14 @@ Section Once.
       destruct a; try exact H1. apply IH; [intros x Hx; apply Hin; right; exact Hx|exact H1].
     Qed.
 
-    Lemma o_dep_value rs d : Once c rs -> Once c (fst (dep_value recd rs h d)).
+    Lemma o_dep_value rs d : Once c F rs -> Once c F (fst (dep_value recd rs h d)).
     Proof.
       intros H. unfold dep_value. destruct (d_group d =? 0); [apply o_req; exact H|].
       unfold group_value. apply o_group_loop; [|exact H].
       intros m Hm. unfold group_members in Hm. apply filter_In in Hm. destruct H as (Hd & _). rewrite <- Hd. exact (proj1 Hm).
     Qed.
 
-    Lemma o_args_loop ps : forall rs inobj acc, Once c rs -> Once c (fst (args_loop recd rs h inobj ps acc)).
+    Lemma o_args_loop ps : forall rs inobj acc, Once c F rs -> Once c F (fst (args_loop recd rs h inobj ps acc)).
     Proof.
       induction ps as [|[d|] ps IH]; intros rs inobj acc H; cbn [args_loop]; [exact H| |apply IH; exact H].
       pose proof (o_dep_value rs d H) as H1.
@@ -206,13 +218,13 @@ Section Once.
       - exact H1.
     Qed.
 
-    Lemma o_create rs d : In d c -> Once c rs -> Once c (fst (create recd rs h d)).
+    Lemma o_create rs d : In d c -> Once c F rs -> Once c F (fst (create recd rs h d)).
     Proof.
       intros Hdc H. unfold create.
       destruct (r_form (ds_reg d)) as [t|io0 ps1 rets er|io0 ps1 fs er] eqn:Hf.
       - (* an instance value: never disposable here, so nothing is listed *)
         cbn [fst]. unfold set_instance.
-        apply (once_share_all c (ds_life d) _ (with_p rs (store (ds_life d) (rs_p rs) h (ds_ident d) (IObj (r_id (ds_reg d)) 0 0 t)))).
+        apply (once_share_all c F (ds_life d) _ (with_p rs (store (ds_life d) (rs_p rs) h (ds_ident d) (IObj (r_id (ds_reg d)) 0 0 t)))).
         pose proof (c_ok d Hdc t Hf) as Hnd.
         destruct H as (Hd & Hn & Hb). unfold Once; cbn [rs_p rs_invs with_p]. rewrite descs_store. split; [exact Hd|].
         assert (Ht : tracked (store (ds_life d) (rs_p rs) h (ds_ident d) (IObj (r_id (ds_reg d)) 0 0 t)) = tracked (rs_p rs)).
@@ -225,14 +237,14 @@ Section Once.
         set (rid := r_id (ds_reg d)). set (inv := get_inv (rs_invs rs1) rid).
         set (o := effective_outcome (ds_reg d) inv).
         set (rs2' := log (mkRs (bump_inv (rs_invs rs1) rid) (rs_p rs1) (rs_ev rs1)) (EvCtor rid inv args o)).
-        assert (H2 : Once c rs2') by (apply once_ctor; exact H1).
+        assert (H2 : Once c F rs2') by (apply once_ctor; exact H1).
         set (rs2 := if cancels (ds_reg d) inv then log rs2' EvCancel else rs2').
-        assert (H3 : Once c rs2) by (unfold rs2; destruct (cancels (ds_reg d) inv); exact H2).
+        assert (H3 : Once c F rs2) by (unfold rs2; destruct (cancels (ds_reg d) inv); exact H2).
         assert (Hp : rs_p rs2 = rs_p rs1) by (unfold rs2, rs2'; destruct (cancels (ds_reg d) inv); reflexivity).
         assert (Hi : rs_invs rs2 = bump_inv (rs_invs rs1) rid) by (unfold rs2, rs2'; destruct (cancels (ds_reg d) inv); reflexivity).
         assert (Hcnt : get_inv (rs_invs rs2) rid = S inv) by (rewrite Hi; apply get_inv_bump_same).
-        assert (Hnone : forall j k, In j (tracked (rs_p rs2)) -> of_invocation rid inv j k -> False).
-        { intros j k Hj Hof. rewrite Hp in Hj. destruct H1 as (_ & _ & Hb1). exact (none_of_this_invocation rs1 rid j k Hb1 Hj Hof). }
+        assert (Hnone : forall j k, In j (tracked (rs_p rs2) ++ F) -> of_invocation rid inv j k -> False).
+        { intros j k Hj Hof. rewrite Hp in Hj. destruct H1 as (_ & _ & Hb1). exact (none_of_this_invocation (rs_invs rs1) _ rid j k Hb1 Hj Hof). }
         destruct o; cbn [fst]; try exact H3.
         destruct rets as [|t0 [|t1 ts]]; cbn [fst]; unfold set_instance.
         + (* an initializer: IVoid is not disposable *)
@@ -241,7 +253,7 @@ Section Once.
           { unfold store, track_single, track_scope. cbn [inst_disposable].
             destruct (ds_life d); [apply tracked_single_set|apply tracked_cache_set|reflexivity]. }
           rewrite Ht. split; assumption.
-        + apply (once_share_all c (ds_life d) _ (with_p rs2 (store (ds_life d) (rs_p rs2) h (ds_ident d) (out_inst (ds_reg d) inv 0)))).
+        + apply (once_share_all c F (ds_life d) _ (with_p rs2 (store (ds_life d) (rs_p rs2) h (ds_ident d) (out_inst (ds_reg d) inv 0)))).
           apply once_store; [exact H3| |cbn; fold rid; rewrite Hcnt; lia].
           intros Hin. apply (Hnone _ 0 Hin). eexists; reflexivity.
         + apply once_fan_out; [exact H3|exact Hcnt|apply seq_NoDup|].
@@ -252,21 +264,21 @@ Section Once.
         set (rid := r_id (ds_reg d)). set (inv := get_inv (rs_invs rs1) rid).
         set (o := effective_outcome (ds_reg d) inv).
         set (rs2' := log (mkRs (bump_inv (rs_invs rs1) rid) (rs_p rs1) (rs_ev rs1)) (EvCtor rid inv args o)).
-        assert (H2 : Once c rs2') by (apply once_ctor; exact H1).
+        assert (H2 : Once c F rs2') by (apply once_ctor; exact H1).
         set (rs2 := if cancels (ds_reg d) inv then log rs2' EvCancel else rs2').
-        assert (H3 : Once c rs2) by (unfold rs2; destruct (cancels (ds_reg d) inv); exact H2).
+        assert (H3 : Once c F rs2) by (unfold rs2; destruct (cancels (ds_reg d) inv); exact H2).
         assert (Hp : rs_p rs2 = rs_p rs1) by (unfold rs2, rs2'; destruct (cancels (ds_reg d) inv); reflexivity).
         assert (Hi : rs_invs rs2 = bump_inv (rs_invs rs1) rid) by (unfold rs2, rs2'; destruct (cancels (ds_reg d) inv); reflexivity).
         assert (Hcnt : get_inv (rs_invs rs2) rid = S inv) by (rewrite Hi; apply get_inv_bump_same).
-        assert (Hnone : forall j k, In j (tracked (rs_p rs2)) -> of_invocation rid inv j k -> False).
-        { intros j k Hj Hof. rewrite Hp in Hj. destruct H1 as (_ & _ & Hb1). exact (none_of_this_invocation rs1 rid j k Hb1 Hj Hof). }
+        assert (Hnone : forall j k, In j (tracked (rs_p rs2) ++ F) -> of_invocation rid inv j k -> False).
+        { intros j k Hj Hof. rewrite Hp in Hj. destruct H1 as (_ & _ & Hb1). exact (none_of_this_invocation (rs_invs rs1) _ rid j k Hb1 Hj Hof). }
         destruct o; cbn [fst]; try exact H3.
         apply once_fan_out; [exact H3|exact Hcnt|apply seq_NoDup|].
         intros j k Hj Hof _. exact (Hnone j k Hj Hof).
     Qed.
   End WithRec.
 
-  Theorem resolution_lists_each_instance_once : forall fuel rs h d, In d c -> Once c rs -> Once c (fst (resolve_d fuel rs h d)).
+  Theorem resolution_lists_each_instance_once : forall fuel rs h d, In d c -> Once c F rs -> Once c F (fst (resolve_d fuel rs h d)).
   Proof.
     induction fuel as [|f IH]; intros rs h d Hd H; cbn [resolve_d]; [exact H|].
     destruct (ds_life d).
@@ -275,24 +287,27 @@ Section Once.
       apply o_create; [intros rs0 d0 Hd0 H0; apply IH; assumption|exact Hd|exact H].
     - apply o_create; [intros rs0 d0 Hd0 H0; apply IH; assumption|exact Hd|exact H].
   Qed.
-End Once.
 
-(* at the API level: a request by type and key, and a group request *)
-Corollary request_lists_each_instance_once c (c_ok : forall d, In d c -> desc_ok d) rs h t k :
-  Once c rs -> Once c (fst (resolve_req rs h t k)).
-Proof.
-  intros H. unfold resolve_req. apply (o_req c h); [|exact H].
-  intros rs0 d Hd H0. apply resolution_lists_each_instance_once; assumption.
-Qed.
-Corollary group_request_lists_each_instance_once c (c_ok : forall d, In d c -> desc_ok d) rs h t g :
-  Once c rs -> Once c (fst (resolve_group rs h t g)).
-Proof.
-  intros H. unfold resolve_group, group_value. apply (o_group_loop c h); [| |exact H].
-  - intros rs0 d Hd H0. apply resolution_lists_each_instance_once; assumption.
-  - intros m Hm. unfold group_members in Hm. apply filter_In in Hm. destruct H as (Hd & _). rewrite <- Hd. exact (proj1 Hm).
-Qed.
+  (* at the API level: a request by type and key, a group request, an initializer or a singleton created directly *)
+  Corollary request_lists_each_instance_once rs h t k : Once c F rs -> Once c F (fst (resolve_req rs h t k)).
+  Proof.
+    intros H. unfold resolve_req. apply (o_req h); [|exact H].
+    intros rs0 d Hd H0. apply resolution_lists_each_instance_once; assumption.
+  Qed.
+  Corollary group_request_lists_each_instance_once rs h t g : Once c F rs -> Once c F (fst (resolve_group rs h t g)).
+  Proof.
+    intros H. unfold resolve_group, group_value. apply (o_group_loop h); [| |exact H].
+    - intros rs0 d Hd H0. apply resolution_lists_each_instance_once; assumption.
+    - intros m Hm. unfold group_members in Hm. apply filter_In in Hm. destruct H as (Hd & _). rewrite <- Hd. exact (proj1 Hm).
+  Qed.
+  Corollary create_top_lists_each_instance_once rs h d : In d c -> Once c F rs -> Once c F (fst (create_top rs h d)).
+  Proof.
+    intros Hd H. unfold create_top. apply o_create; [|exact Hd|exact H].
+    intros rs0 d0 Hd0 H0. apply resolution_lists_each_instance_once; assumption.
+  Qed.
+End Once.
 
 (* non-vacuity: a freshly built provider that owns nothing yet meets the invariant *)
 Example once_holds_initially c invs :
-  Once c (mkRs invs (mkProv c [mkScope 0 0 [] [] true] [] [] true) []).
+  Once c [] (mkRs invs (mkProv c [mkScope 0 0 [] [] true] [] [] true) []).
 Proof. repeat split; constructor. Qed.
